@@ -317,6 +317,8 @@ func main() {
 		cmdTok(os.Args[2:])
 	case "dispatch":
 		cmdDispatch(os.Args[2:])
+	case "build":
+		cmdBuild(os.Args[2:])
 	default:
 		fmt.Fprintln(os.Stderr, "unknown subcommand", os.Args[1])
 		os.Exit(2)
